@@ -30,6 +30,7 @@ DoWrite == /\ pend # <<>>
            /\ pend' = <<>>
 MCNext == AddByte \/ DoWrite
 MCSpec == MCInit /\ [][MCNext]_mcvars
+Spec == MCSpec
 AtBoundary == pend = <<>>
 
 \* the comparison of events: kind, payload, announced length/element type (the integer family is the code's business)
